@@ -18,7 +18,8 @@ RULE = ('closed random sampler configurations as in C16 (reactivity tables with 
         '(site, partner): site has reactivity > 0 whenever a table is supplied, partner has conditional reactivity > 0 whenever '
         'the site has a conditional table; the same is checked on every weighted-choice event of the hooked selector; (ii) '
         'summed mass of the fragments added after the start fragment >= target and < target without the last one; (iii) '
-        'element-derived masses equal an independent table (atoms + hydrogens completing the fragment as a stand-alone '
+        'element-derived masses equal the generator\'s own formula mass (its atoms and hydrogen counts; hand-written units with '
+        'lower-case benzene, pyridine, pyrrole-type [nH] and imidazole rings have tabulated masses; atoms + hydrogens completing the fragment as a stand-alone '
         'molecule); (iv) an atom that received a terminal fragment offers no descriptor afterwards, an atom that grew '
         'otherwise offers no terminal descriptor; (v) construct-and-sample with the same seed is repeated in-process with '
         'other samplers, seeds, random calls and resolver calls in between, and (history cases) alone in freshly forked '
@@ -78,7 +79,9 @@ def run_single(cfg):
     # (iii) mass model
     if cfg['all_atom'] and not cfg['fragment_masses']:
         for name, t in sampler.fragment_dict.items():
-            want = SC.standalone_mass(t)
+            want = (cfg.get('unit_masses') or {}).get(name)
+            if want is None:
+                want = SC.standalone_mass(t)
             tol = 0.02 * (len(t) + 8)
             if want == want and abs(masses.get(name, float('nan')) - want) > tol:
                 viol.append(V('c17.mass', f'{txt}: element-derived mass of {name} is {masses.get(name)}, independent table gives {want:.3f}'))
